@@ -284,6 +284,12 @@ func init() {
 				j.Workers = 8
 				j.MaxPaths = 3000000
 			}
+			pl := jobResumePlan("C17.plan", 3)
+			if tier == "thorough" {
+				pl = jobResumePlan("C17.plan", 5)
+			}
+			pl.Workers = 8
+			js = append(js, pl)
 			return js
 		},
 	})
